@@ -333,6 +333,39 @@ def native_run(binary, args, timeout=600):
         return 'timeout', (e.stdout or b'').decode('utf-8', 'replace'), ''
 
 
+def do_replay(pid, SPEC, hdir, path, kf_defines):
+    """Re-runs a stored counterexample (replays/<id>/*.txt) against a fresh ASan/UBSan build of /repo's current tree."""
+    head = open(path).readline()
+    m = re.search(r'obligation (\S+?)[: ]', head + ' ')
+    if not m:
+        log('cannot find the obligation id in the first line of ' + path); return 2
+    oid = m.group(1)
+    tmp = tempfile.mkdtemp(prefix='verif-replay-%s-' % pid)
+    try:
+        for gi, grp in enumerate(SPEC['groups']):
+            for o in grp['obligations']:
+                o = dict(o)
+                o['defines'] = list(grp.get('defines', [])) + list(o.get('defines', [])) + kf_defines
+                o.setdefault('id', o['fn'] + ('' if not o.get('defines') else '[' + ' '.join(d[2:] for d in o['defines'] if not d.startswith('-DKF_')) + ']'))
+                if o['id'] != oid and o['fn'] != oid:
+                    continue
+                b = Build(tmp, 'g%d_%s' % (gi, grp['name']), hdir, grp)
+                b.translate()
+                b.build_native_common()
+                tn, rn = b.native_for(o['defines'])
+                rc, out, err = native_run(rn, ['replay', o['fn'], path], timeout=300)
+                log(out + err[-3000:])
+                if rc != 0:
+                    log('VIOLATION property=%s replay=%s' % (pid, path))
+                    log('  reproduced on the real build of the current tree (rc=%s)' % rc)
+                    return 1
+                log('replay of %s: the real build of the current tree passes this input' % path)
+                return 0
+        log('no obligation %s in harness/%s/spec.py' % (oid, pid)); return 2
+    finally:
+        shutil.rmtree(tmp, ignore_errors=True)
+
+
 def main():
     ap = argparse.ArgumentParser()
     ap.add_argument('prop')
@@ -359,6 +392,8 @@ def main():
 
     if not os.path.exists(LL2C):
         sh(['sh', os.path.join(ENG, 'setup.sh')])
+    if args.replay:
+        return do_replay(pid, SPEC, hdir, args.replay, kf_defines)
     tmp = tempfile.mkdtemp(prefix='verif-%s-' % pid)
     evidence = {'property_id': pid, 'tier': args.tier, 'seed': seed, 'level': 'model_checking'}
     engine_errors, violations, notes, kf_lines = [], [], [], []
@@ -577,7 +612,7 @@ def main():
         evidence['violations'] = len(violations)
         if engine_errors:
             evidence['coverage']['engine_errors'] = engine_errors
-        if not args.only:
+        if not args.only and not os.environ.get('VERIF_NO_EVIDENCE'):
             os.makedirs(os.path.join(VERIF, 'evidence'), exist_ok=True)
             json.dump(evidence, open(os.path.join(VERIF, 'evidence', pid + '.json'), 'w'), indent=1)
         for s in samples:
